@@ -29,7 +29,12 @@ Print Assumptions ex_toposort_smoke.
 (* a tree-shaped skeleton written as an edge list (src, dst) with root r:
    every node has at most one incoming edge, r has none, edges go strictly
    down in depth (acyclic), every source is the root or has a parent edge
-   (connected).  Node labels and the order of the edges are arbitrary. *)
+   (connected).  Node labels and the order of the edges are arbitrary.
+   SCOPE: tree = rooted OUT-tree, every edge directed away from one root (the
+   property's quantifier: "rooted labelled trees"; its phrase "THE edge leading
+   into its source node" presupposes at most one incoming edge per node).
+   Polytrees (undirected trees with an edge written towards a node that already
+   has a parent, e.g. [(0,1);(2,1)]) are OUTSIDE: `toposort_polytree_incomplete`. *)
 Lemma arborescence_def : forall es r,
   arborescence es r =
   (es <> [] /\ NoDup (map snd es) /\ ~ In r (map snd es) /\
@@ -76,8 +81,11 @@ Print Assumptions arborescence_root_is_model_root.
 
 (* --- the executable statement order_ok (Toposort.v) --------------------- *)
 
-(* the boolean checker used on the specification side of the correspondence
-   means exactly the Prop-level statement (both directions) *)
+(* the boolean checker means exactly the Prop-level statement (both
+   directions).  Since review round 4 the harness EVALUATES it (Walk.run_topo)
+   on the implementation's output for every case of the first stream and
+   requires `true` whenever `is_tree` is `true`; before, only the Python oracle
+   played that role. *)
 Theorem order_ok_sound : forall es out, order_ok es out = true ->
   exists r, root es = Some r /\ Permutation out (seq 0 (length es)) /\
             parent_before_child es out r.
@@ -100,6 +108,64 @@ Print Assumptions toposort_tree_order_ok.
 Theorem is_tree_sound : forall es, is_tree es = true -> exists r, arborescence es r.
 Proof. exact is_tree_sound_proof. Qed.
 Print Assumptions is_tree_sound.
+
+(* ... and is implied by it (fuel |es| of `climb` always suffices: the proper
+   ancestors of a node are distinct destinations).  So `is_tree`, which the
+   harness evaluates on every case of the first stream (Walk.run_topo: must be
+   true on the generated trees, false on the generated polytrees), DECIDES the
+   hypothesis of every theorem of this file. *)
+Theorem is_tree_complete : forall es r, arborescence es r -> is_tree es = true.
+Proof. exact is_tree_complete_proof. Qed.
+Print Assumptions is_tree_complete.
+
+Theorem is_tree_spec : forall es, is_tree es = true <-> exists r, arborescence es r.
+Proof. exact is_tree_iff. Qed.
+Print Assumptions is_tree_spec.
+
+(* --- outside the domain: polytrees --------------------------------------- *)
+
+(* a node with two incoming edges excludes the edge list from the domain,
+   whatever the root *)
+Theorem two_incoming_edges_not_arborescence : forall es r i j a b v,
+  nth_error es i = Some (a,v) -> nth_error es j = Some (b,v) -> i <> j ->
+  ~ arborescence es r.
+Proof. exact two_incoming_edges_not_arborescence_proof. Qed.
+Print Assumptions two_incoming_edges_not_arborescence.
+
+(* ... and, for EVERY edge list (tree or not), the model returns a complete
+   order only if no node has two incoming edges: BFS discovers a node once, so
+   the emitted edges have distinct destinations.  Hence every polytree (and
+   every other skeleton with a two-parent node) gets an incomplete order or
+   none: the domain `arborescence` cannot be widened in that direction. *)
+Theorem toposort_complete_only_if_one_parent : forall es out,
+  toposort es = Some out -> Permutation out (seq 0 (length es)) -> NoDup (map snd es).
+Proof. exact toposort_complete_only_if_one_parent_proof. Qed.
+Print Assumptions toposort_complete_only_if_one_parent.
+
+Theorem two_incoming_edges_incomplete : forall es i j a b v out,
+  nth_error es i = Some (a,v) -> nth_error es j = Some (b,v) -> i <> j ->
+  toposort es = Some out -> ~ Permutation out (seq 0 (length es)).
+Proof. exact two_incoming_edges_incomplete_proof. Qed.
+Print Assumptions two_incoming_edges_incomplete.
+
+(* NEGATIVE example (the witnesses of the two theorems above).  The
+   skeleton 0 -> 1 <- 2 is a tree as an undirected graph but not a rooted
+   out-tree: node 1 has two incoming edges, nodes 0 and 2 have none.  The model
+   returns the INCOMPLETE order [0] (so does the code: networkx 3.6.1
+   `toposort_edges` gives (0,), compared on every run by the polytree stream of
+   the harness); edge 1 = (2,1) is never put into `connections` and part 2 is
+   never grouped.  Second witness: 1 -> 0, 1 -> 2 <- 3 gives [0;1].  Nothing
+   between sleap-io `Skeleton` and `PAFScorer` rejects such a skeleton.  They are
+   outside this property (`is_tree` = false, no root makes them arborescences),
+   and `order_ok` does reject the incomplete order. *)
+Theorem toposort_polytree_incomplete :
+  toposort [(0,1);(2,1)] = Some [0] /\
+  toposort [(1,0);(1,2);(3,2)] = Some [0;1] /\
+  is_tree [(0,1);(2,1)] = false /\
+  order_ok [(0,1);(2,1)] [0] = false /\
+  (forall r, ~ arborescence [(0,1);(2,1)] r).
+Proof. exact toposort_polytree_incomplete_proof. Qed.
+Print Assumptions toposort_polytree_incomplete.
 
 (* --- corollary used by C08 ---------------------------------------------- *)
 
@@ -158,14 +224,31 @@ Print Assumptions tree_edge_types_distinct.
 
 (* For every tree-shaped skeleton and every batch, the order in which the
    connections of a sample are consumed is sorted_edge_inds (= toposort es)
-   restricted to the edges that have a match in THAT sample; no other sample of
-   the batch has any influence on it. *)
+   restricted to the edges that have a match in THAT sample.  The content of
+   the theorem is `conn_keys out = out` (a dict filled in a duplicate-free order
+   has that key order).  That no other sample of the batch has any influence is
+   NOT proved here: it is how Walk.v models `connections = {}` per sample
+   (`walk_batch` is a `map` over the samples, so independence holds by
+   definition, for any edge list); that the CODE creates a new dict per sample
+   is validated by the walk correspondence only (seeded change m5, self-test
+   "cache per skeleton"). *)
 Theorem walk_batch_is_filtered_toposort : forall es r samples, arborescence es r ->
   exists out, toposort es = Some out /\
     walk_batch es samples =
     Some (map (fun present => filter (fun i => memb i present) out) samples).
 Proof. exact walk_batch_filtered_proof. Qed.
 Print Assumptions walk_batch_is_filtered_toposort.
+
+(* the literal clause "the edge order used for grouping contains every edge
+   exactly once ...": the FULL key order of the dict `connections` of a sample
+   (every edge type, those with an empty connection list included) is
+   sorted_edge_inds itself, a permutation of all edge indices, parent before
+   child.  (The harness compares only the keys that carry connections.) *)
+Theorem conn_keys_is_toposort : forall es r, arborescence es r ->
+  exists out, toposort es = Some out /\ conn_keys out = out /\
+              Permutation out (seq 0 (length es)) /\ parent_before_child es out r.
+Proof. exact conn_keys_is_toposort_proof. Qed.
+Print Assumptions conn_keys_is_toposort.
 
 (* every edge type that has connections in the sample is consumed exactly
    once, and nothing else is *)
@@ -205,11 +288,16 @@ Theorem filter_keeps_parent_before_child : forall es out r has,
 Proof. exact filter_keeps_parent_before_child_proof. Qed.
 Print Assumptions filter_keeps_parent_before_child.
 
-(* "Hence no body part is left ungrouped": when an edge (u,v) is consumed, no
-   edge consumed earlier in that sample has v as its source or destination, so
-   assign_connections_to_instances only meets "neither peak assigned" or "source
-   assigned, destination not" (C08 proves from exactly this hypothesis that the
-   instances are the connected components of the accepted matches). *)
+(* "Hence no body part is left ungrouped", the ordering half only: when an edge
+   (u,v) is consumed, no edge consumed earlier in that sample has v as its
+   source or destination.  This is a PRECONDITION, not the conclusion: C08
+   proves that the instances are the connected components of the accepted
+   matches from this ordering fact PLUS one-to-one, in-range matches per edge
+   type (`matches_one_to_one`, `matches_in_range` of C08's `group_hyps`; two
+   connections of one edge type sharing a destination peak reach case 3
+   whatever the edge order).  C08 consumes the full-order form
+   `toposort_dst_fresh` (through `c17_order_is_edges_ordered`); no theorem uses
+   this per-sample form, it documents that filtering keeps the fact. *)
 Theorem walk_sample_dst_fresh : forall es r samples ws b present w, arborescence es r ->
   walk_batch es samples = Some ws -> nth_error samples b = Some present ->
   nth_error ws b = Some w ->
@@ -219,11 +307,13 @@ Theorem walk_sample_dst_fresh : forall es r samples ws b present w, arborescence
 Proof. exact walk_sample_dst_fresh_proof. Qed.
 Print Assumptions walk_sample_dst_fresh.
 
-(* what holds when the parent edge has NO match in the sample: then no consumed
-   edge, and no accepted connection of the sample at all, leads into a part of
-   type u.  The part u of that animal has no parent in this sample because of
-   what was detected and matched in it, in whatever order the connections are
-   looked at, not because of the way the skeleton was written down. *)
+(* what is proved when the parent edge has NO match in the sample: the unique
+   edge into u has no match, hence no matched edge (consumed or not) leads into
+   u.  This rests on `NoDup (map snd es)` alone (general form:
+   `absent_parent_edge_is_only_edge_into` below; neither toposort nor the walk
+   matters, and the binders k i v are not used).  Reading it as "the part has no
+   parent because of the detections, not of the listing" is an interpretation,
+   not part of the statement. *)
 Theorem walk_sample_parent_absent : forall es r samples ws b present w,
   arborescence es r ->
   walk_batch es samples = Some ws -> nth_error samples b = Some present ->
@@ -234,6 +324,12 @@ Theorem walk_sample_parent_absent : forall es r samples ws b present w,
   (forall j' a, In j' present -> nth_error es j' = Some (a,u) -> False).
 Proof. exact walk_sample_parent_absent_proof. Qed.
 Print Assumptions walk_sample_parent_absent.
+
+Theorem absent_parent_edge_is_only_edge_into : forall (es : list edge) present j p u,
+  NoDup (map snd es) -> nth_error es j = Some (p,u) -> ~ In j present ->
+  forall j' a, In j' present -> nth_error es j' = Some (a,u) -> False.
+Proof. exact absent_parent_edge_is_only_edge_into_proof. Qed.
+Print Assumptions absent_parent_edge_is_only_edge_into.
 
 (* the executable statement walk_ok (Walk.v; evaluated by the harness on the
    order observed in the implementation) means the Prop-level clause, and the
